@@ -1,4 +1,5 @@
 import PlasVerif.Proofs.GlobalState
+import PlasVerif.Proofs.ClassCache
 /-!
 # C17 — A document's result does not depend on what was processed before it
 
@@ -157,5 +158,40 @@ theorem current_leaks_column :
 theorem isolation_statement_false : ¬ isolation_statement := by
   intro h
   exact current_leaks_register (h [[.assign 0 7]] [.use 0] (fun _ _ => trivial))
+
+/-! ### the per-class caches `'@locals'` and `'@arguments'` are transparent
+
+They are class-level state that earlier documents fill and nothing resets; what the property needs is that no
+later lookup can tell.  `mro`, the uncached computation `f` and the history of lookups are arbitrary. -/
+section ClassCache
+open PlasVerif.Model.ClassCache PlasVerif.Proofs.ClassCache
+
+/-- **Every lookup, after any history of lookups (any classes, any order, any repetitions), returns exactly what
+    the uncached computation gives for that class** — and the whole history of answers is `hist.map f`. -/
+theorem class_cache_transparent {τ} (mro : Nat → List Nat) (f : Nat → τ) (hist : List Nat) (c : Nat) :
+    (lookups false mro f [] hist).2 = hist.map f ∧
+    (lookup false mro f (lookups false mro f [] hist).1 c).2 = f c := by
+  obtain ⟨h1, h2⟩ := lookups_sound mro f hist [] (sound_nil f)
+  exact ⟨h1, (lookup_sound mro f _ c h2).1⟩
+
+/-- instance: the macros local to an environment do not depend on which environments were used before -/
+theorem locals_independent_of_history (mro : Nat → List Nat) (own : Nat → Table) (hist : List Nat) (c : Nat) :
+    (lookup false mro (computeLocals mro own) (lookups false mro (computeLocals mro own) [] hist).1 c).2 =
+      computeLocals mro own c :=
+  (class_cache_transparent mro (computeLocals mro own) hist c).2
+
+/-- non-vacuity: class 1 derives from class 0 and overrides macro 5; using 0 first does not change what 1 sees -/
+example : (lookups false (fun c => if c = 1 then [1, 0] else [c])
+      (computeLocals (fun c => if c = 1 then [1, 0] else [c]) (fun c => if c = 0 then [(5, 10), (6, 12)] else if c = 1 then [(5, 11)] else []))
+      [] [0, 1, 0, 1]).2 = [[(5, 10), (6, 12)], [(5, 11), (6, 12)], [(5, 10), (6, 12)], [(5, 11), (6, 12)]] := by decide
+
+/-- reading the cache with attribute lookup (so that a class sees the entry cached by a base class) breaks it:
+    kernel-checked counterexample — the derived class gets the base class's table once the base has been used -/
+theorem inherited_cache_leaks :
+    (lookups true (fun c => if c = 1 then [1, 0] else [c])
+      (computeLocals (fun c => if c = 1 then [1, 0] else [c]) (fun c => if c = 0 then [(5, 10)] else if c = 1 then [(5, 11)] else []))
+      [] [0, 1]).2 ≠ [[(5, 10)], [(5, 11)]] := by decide
+
+end ClassCache
 
 end PlasVerif.Properties.C17
